@@ -9,6 +9,7 @@ the simulator and exit status + emitted bytes must equal the model's.
 import copy
 import re
 
+from sim.runner import H
 from sim import child, gen
 
 ID = 'C09'
@@ -481,7 +482,7 @@ def make_machine(stats, box):
             if self.model is not None:
                 m = self.model
                 graph = tuple(sorted((n, tuple(WORD.findall(v)), m.source[n]) for n, v in m.symbols.items()))
-                box['paths'].add(hash((graph, tuple(m.shape))) & 0xFFFFFFFFFFFF)
+                box['paths'].add(H((graph, tuple(m.shape))) & 0xFFFFFFFFFFFF)
                 if m.probes.get('use_mentions_symbol'):
                     box['nontrivial'] += 1
                 for k, v in m.probes.items():
